@@ -485,19 +485,19 @@ prop('C20', wip=True,
      level_text='Bounded model checking of the aggregation step of predicate checking for arbitrary per-predicate outcomes: verdict and total gas are the same for every arrival order of the results (sequential = parallel), the total is the checked sum, any failed predicate fails the transaction, and estimation writes back exactly the gas each predicate used.',
      level_note='Trusted: Kani/CBMC/cadical. Partial claim (aggregation step only).')
 
-prop('C05', wip=True,
+prop('C05',
      builds=[dict(crate='vm', filters=['c05_'])],
      default=dict(mem=12, timeout={'quick': 1200, 'thorough': 2400}, cbmc_extra=FS2K, unwindset=['memcmp.0:200']),
-     overrides=[(r'c05_gtf_(general|inputs)$', dict(tier='thorough', attempt=True, mem=24, timeout=2400))],
-     min_harnesses={'quick': 6, 'thorough': 8},
+     overrides=[(r'c05_gtf_(general|inputs|create)$', dict(tier='thorough', attempt=True, mem=24, timeout=2400))],
+     min_harnesses={'quick': 5, 'thorough': 8},
      functions_encoded=['<op::GM as Execute>::execute, Interpreter::metadata, interpreter::metadata::metadata', 'Interpreter::get_transaction_field, GTFInput::get_transaction_field',
                         'GMArgs::try_from, GTFArgs::try_from', 'init_inner placing the transaction bytes at tx_offset and computing the owner pointer: harnesses c31_init_* (run with C31)'],
      bounds=['GM: all 2^18 immediates, all destination registers, Script / Call / predicate contexts, with and without a call frame (symbolic saved $fp), symbolic chain id / gas price / tx offset / owner pointer',
-             'GTF (quick): a Create transaction with one coin-predicate input, one contract-created output, one storage slot and one witness: kind, create, input / output / witness pointer selectors and the script / upload / blob / upgrade selectors of other kinds', 'GTF (thorough-tier attempts, no verdict in 1200 s so far): a Script with one coin-predicate, one contract and one message-data-predicate input, a coin and a contract output, one witness: 90 selector/index combinations incl. wrong-family, absent-index, other-kind and all undefined selectors'],
+             'GTF: thorough-tier attempts only (no verdict in 1200 s so far): a Create transaction with one coin-predicate input, one contract-created output, one storage slot and one witness (kind, create, pointer selectors, selectors of other kinds); a Script with one coin-predicate, one contract and one message-data-predicate input, a coin and a contract output, one witness: 90 selector/index combinations incl. wrong-family, absent-index, other-kind and all undefined selectors'],
      assumptions=[VM_STUBS_NOTE, 'selector numbers are the specification literals, not the GMArgs/GTFArgs enums'],
      out_of_claim=['GTF on Upload / Upgrade / Blob transactions (kind-specific selectors); Create is covered for the kind / create / script-foreign selectors only', 'other input/output variants and shapes', 'gas charge of GTF (symbolic-schedule charge is asserted for GM)'],
-     level_text='Bounded model checking of the introspection instructions against a specification table: value selectors return the value of the executed transaction, pointer selectors point at exactly the canonical bytes of the field inside the encoded transaction, wrong-family / absent / other-kind / undefined selectors panic as specified; GM returns the configured values in every context.',
-     level_note='Trusted: Kani/CBMC/cadical, split_registers model. Partial claim (Script kind).')
+     level_text='Bounded model checking of the GM instruction against a specification table for all 2^18 immediates, all destination registers and every context (script, call with and without a caller frame, predicate verification and estimation): configured chain id, base-asset pointer, transaction start, gas price, owner pointer, caller and predicate index are returned or the specified panic is raised; GTF harnesses exist as thorough-tier attempts without verdict.',
+     level_note='Trusted: Kani/CBMC/cadical, split_registers model. Partial claim (GM only; GTF and the placement of the transaction in memory are not decided).')
 
 prop('C06',
      builds=[dict(crate='ext', filters=['c06_'])],
